@@ -81,3 +81,7 @@ func MR[M ~map[K]V, K comparable, V any](m M, site int) M { mapAccess(m, false, 
 
 // MW reports a write of the map (assignment to an element, delete) and returns it.
 func MW[M ~map[K]V, K comparable, V any](m M, site int) M { mapAccess(m, true, site); return m }
+
+// Mid sits between the read and the write of a split x.f++ / x.f--: a thread that holds no lock
+// may be preempted here.
+func Mid() { vsync.BarePoint() }
